@@ -26,12 +26,12 @@ CASES = {"quick": 640, "thorough": 20000}
 BUDGET = {"quick": 60, "thorough": 1500}
 FLOORS = {"quick": {"nontrivial": 250, "max_skip_frac": 0.35,
                     "tags": {"batch_read": 60, "recycle_bus_pq": 150, "recycle_gen": 60, "recycle_trafo": 60, "no_recycle": 25,
-                             "recycle_gen_only": 12, "ctrl:line": 25, "ctrl:trafo.tap_pos": 25, "ctrl:gen.vm_pu": 15, "ctrl:ext_grid.vm_pu": 15,
+                             "recycle_gen_only": 25, "ctrl:line": 25, "ctrl:trafo.tap_pos": 25, "ctrl:gen.vm_pu": 15, "ctrl:ext_grid.vm_pu": 15,
                              "log:eval": 40, "log:index_subset": 40, "log:non_branch_table": 60, "ts_returned": 300},
-                    "extras": {"cells_compared": 100000, "steps_compared": 1500}},
+                    "extras": {"cells_compared": 30000, "steps_compared": 1500}},
           "thorough": {"nontrivial": 6000, "max_skip_frac": 0.35,
                        "tags": {"batch_read": 1500, "recycle_gen": 1500, "recycle_trafo": 1500, "ctrl:line": 600, "log:eval": 1000},
-                       "extras": {"cells_compared": 3000000}}}
+                       "extras": {"cells_compared": 1000000}}}
 RULE = ("one case = one generated network (netgen profiles + perturbed pandapower.networks cases) x 1-3 ConstControl/DFData "
         "profiles on random (element, variable, index subset, scale_factor) x a random OutputWriter variable selection "
         "(2-tuples that allow batch reading, log_variable calls with index subsets / eval functions) x 4-7 time steps x a "
